@@ -14,7 +14,7 @@
    step list; every pair i <= j of observation points of a concurrent retrieve.
    "The complete tree" is the tree being stored or the one Retrieve returned before the store
    began (an overwriting store may die before it has changed anything). *)
-From PlzV Require Import Base.Harness Model.C12 Proof.C12.
+From PlzV Require Import Base.Harness Model.C12 Proof.C12 Proof.C12_Gen Gen.C12Store.
 
 Definition C12_statement : Prop :=
   forall c order st outs src, inputs_ok c st outs src ->
@@ -59,6 +59,18 @@ Theorem C12_partial :
           r = Miss \/ r = new \/ r = retrieve c st outs).
 Proof. exact partial_holds. Qed.
 Print Assumptions C12_partial.
+
+(* The step list the theorems speak about follows the statement order of dirCache.Store as gotrans
+   reads it from the current source (remove the final entry, build into the temporary entry, rename
+   temporary -> final; temporary name = final name + tmp_suffix), and the model's hit on a vanished
+   tarball is the source's treatment of a not-exist error. *)
+Theorem C12_source_shape :
+  (forall c order st outs src, store_steps c order st outs src = interp c order outs src store_phases st)
+  /\ (forall st1 st2 o outs, lookup [kK] st1 <> None -> lookup [kK] st2 = None ->
+        retrieve2 true st1 st2 (o :: outs)
+        = if (compressed_found_with_error && notexist_error_keeps_found)%bool then Hit [] else Miss).
+Proof. exact (conj store_follows_source compressed_notexist_follows_source). Qed.
+Print Assumptions C12_source_shape.
 
 (* Non-vacuity of C12_refuted: the witness satisfies the hypotheses, its prior state is what the
    model's Store itself produced, and the crash state is a genuine partial tree. *)
